@@ -191,7 +191,7 @@ func (e *Engine) verifyFuncMode(fn *ssa.Function, cfg SolverCfg, mode string) *F
 		}
 	}
 	switch {
-	case len(checked) == 0 || vc.ringMode: // ring mode: only the sliced, read-expanded single queries are tractable
+	case len(checked) == 0 || vc.ringMode || os.Getenv("GOVC_NOINC") != "": // ring mode: only the sliced, read-expanded single queries are tractable (GOVC_NOINC: diagnostic, singles only)
 	case nchunks == 1:
 		hard := time.Duration(incT*len(checked)+20000) * time.Millisecond
 		if hard > 15*time.Minute {
@@ -235,6 +235,31 @@ func (e *Engine) verifyFuncMode(fn *ssa.Function, cfg SolverCfg, mode string) *F
 		for c := 0; c < nchunks; c++ {
 			rs = append(rs, parts[c]...)
 			secs += times[c]
+		}
+	}
+	// second incremental pass: a query that the first pass left undecided (machine load, a cancelled command)
+	// is often easy in the incremental context (lemmas learned from the earlier queries) and hard as a one-shot
+	// query; pose the whole sequence once more with a longer per-query cap before falling back to one-shot queries
+	if len(checked) > 0 && !vc.ringMode && os.Getenv("GOVC_NOINC") == "" {
+		bad := 0
+		for i := range checked {
+			if i >= len(rs) || rs[i] != "unsat" {
+				bad++
+			}
+		}
+		if bad > 0 && bad <= 12 {
+			t2 := 6 * incT
+			out2, secs2 := runSolver(solvers[0], file, t2, time.Duration(incT*len(checked)+t2*bad+20000)*time.Millisecond)
+			rs2 := parseResults(out2)
+			for len(rs) < len(checked) {
+				rs = append(rs, "unknown")
+			}
+			for i := range checked {
+				if rs[i] != "unsat" && i < len(rs2) && rs2[i] == "unsat" {
+					rs[i] = "unsat"
+				}
+			}
+			secs += secs2
 		}
 	}
 	ci := 0
